@@ -16,7 +16,7 @@ TRANSLATE = True
 TRANSLATE_ALGO = ["AlgoTraverse", "AlgoTravFront", "AlgoRaster", "AlgoImgIo", "AlgoImgIo2"]   # harness/algo_specs/18_raster.py: image_stack.py::_tp3f, ToImageStack._get_samplers / _get_scene (+ leave) / transform; 18b_imgio.py: images/io.py::read_imgs, save_tiff, TiffImageStack / NDArrayImageStack.__init__, __getitem__, get_full
 DRIVER_FILES = ["SwcVerif/Model/AlgoRunRaster.lean", "SwcVerif/Model/PyRaster.lean", "SwcVerif/Model/AlgoRunImgIo.lean", "SwcVerif/Model/PyImgIo.lean",
                 "SwcVerif/Model/AlgoRunImgIo2.lean", "SwcVerif/Model/PyImgIo2.lean"]
-LEAN_MODS = ["SwcVerif.Props.C20", "SwcVerif.Props.C20Gen", "SwcVerif.Props.C20Io"]
+LEAN_MODS = ["SwcVerif.Props.C20", "SwcVerif.Props.C20Gen", "SwcVerif.Props.C20Io", "SwcVerif.Props.C20Io2"]
 THEOREMS = [
     "C20.consts_pinned", "C20.save_puts_z_first", "C20.axes_roundtrip", "C20.axes_roundtrip_3d", "C20.unknown_axis", "C20.rescale_table",
     "C20.uint_float_uint", "C20.float_uint_float", "C20.grid_covers", "C20.bbox_contains", "C20.swept_ends",
@@ -34,6 +34,15 @@ THEOREMS = [
     "C20.generated_load_layout_3d", "C20.generated_load_reset_axes", "C20.generated_load_general", "C20.generated_load_any_order",
     "C20.generated_axes_roundtrip", "C20.generated_axes_roundtrip_3d", "C20.generated_roundtrip_values", "C20.generated_getitem",
     "C20.generated_roundtrip_getitem", "C20.generated_save_factor", "C20.generated_load_factor", "C20.generated_uint_float_uint",
+    # the rest of the chain (Gen/AlgoImgIo2.lean, harness/algo_specs/18c_imgio2.py): ToImageStack.__call__ / save_tif / transform_and_save, transform WITH
+    # its frame conversion, the Nrrd / V3d constructors, ImageStack / GrayImageStack.get_full (Refine/ImgIo2.lean, Props/C20Io2.lean)
+    "RefineImgIo2.tostack_call_eq", "RefineImgIo2.save_tif_eq", "RefineImgIo2.transform_and_save_eq", "RefineImgIo2.nrrd_init_eq",
+    "RefineImgIo2.v3d_init_eq", "RefineImgIo2.v3draw_init_eq", "RefineImgIo2.v3dpbd_init_eq", "RefineImgIo2.imagestack_get_full_eq",
+    "RefineImgIo2.gray_get_full_eq", "RefineImgIo2.gray_spec", "RefineImgIo2.frameOpt_spec", "RefineImgIo2.transform_nd_refines",
+    "RefineImgIo2.transform_nd_eq_transform",
+    "C20.generated_call_layout", "C20.generated_call_empty", "C20.generated_save_tif_writes", "C20.generated_raster_file_roundtrip",
+    "C20.generated_raster_file_single_plane", "C20.generated_raster_file_empty", "C20.generated_codec_inits", "C20.generated_get_full",
+    "C20.generated_call_every_tree",
 ]
 TRUSTED = ["hand-written models Model/Images.lean of the axis bookkeeping (index tuples), the rescaling decisions and the voxel grid; AXES_ORDER, UINT_MAX and "
            "the 'ZXYC' axes string are regenerated from images/io.py on every run (Gen/Consts.lean)",
